@@ -448,8 +448,21 @@ class RunLengthEncoding(Encoding):
         self._dtype = dtype
 
     @caching.cache_decorator
+    def _read_data(self):
+        """
+        The run length data with every value as `self.dtype` reads it,
+        which is what `dense`, `gather` and `mask` return.
+        """
+        if np.dtype(self._dtype) == self._data.dtype:
+            return self._data
+        data = np.array(self._data)
+        data[::2] = data[::2].astype(self._dtype)
+        return data
+
+    @caching.cache_decorator
     def is_empty(self):
-        return not np.any(np.logical_and(self._data[::2], self._data[1::2]))
+        data = self._read_data
+        return not np.any(np.logical_and(data[::2], data[1::2]))
 
     @property
     def ndims(self):
@@ -494,7 +507,7 @@ class RunLengthEncoding(Encoding):
     def stripped(self):
         if self.is_empty:
             return _empty_stripped(self.shape)
-        data, padding = runlength.rle_strip(self._data)
+        data, padding = runlength.rle_strip(self._read_data)
         if padding == (0, 0):
             encoding = self
         else:
@@ -504,7 +517,7 @@ class RunLengthEncoding(Encoding):
 
     @caching.cache_decorator
     def sum(self):
-        data = self._data
+        data = self._read_data
         if data.dtype.kind in "iub" and data.dtype.itemsize < 8:
             # value * count has to be formed in the type numpy sums in
             data = data.astype(np.uint64 if data.dtype.kind == "u" else np.int64)
@@ -517,11 +530,12 @@ class RunLengthEncoding(Encoding):
     def _flip(self, axes):
         if axes != (0,):
             raise ValueError(f"encoding is 1D - cannot flip on axis {axes!s}")
-        return RunLengthEncoding(runlength.rle_reverse(self._data))
+        return RunLengthEncoding(runlength.rle_reverse(self._data), dtype=self._dtype)
 
     @caching.cache_decorator
     def sparse_components(self):
-        return runlength.rle_to_sparse(self._data)
+        indices, values = runlength.rle_to_sparse(self._read_data)
+        return indices, values.astype(self._dtype)
 
     @caching.cache_decorator
     def sparse_indices(self):
@@ -559,10 +573,10 @@ class RunLengthEncoding(Encoding):
         return RunLengthEncoding(self._data.copy(), dtype=self.dtype)
 
     def run_length_data(self, dtype=np.int64):
-        return runlength.rle_to_rle(self._data, dtype=dtype)
+        return runlength.rle_to_rle(self._read_data, dtype=dtype)
 
     def binary_run_length_data(self, dtype=np.int64):
-        return runlength.rle_to_brle(self._data, dtype=dtype)
+        return runlength.rle_to_brle(self._read_data, dtype=dtype)
 
 
 class BinaryRunLengthEncoding(RunLengthEncoding):
